@@ -474,7 +474,61 @@ func max64(a, b int64) int64 {
 }
 
 // Finish prints the verdict lines and returns the exit code.
+type knownFinding struct {
+	ID        string   `json:"id"`
+	Property  string   `json:"property"`
+	Status    string   `json:"status"`
+	JobPrefix string   `json:"job_prefix"`
+	Asserts   []string `json:"asserts"`
+	What      string   `json:"what"`
+}
+
+func loadKnown() []knownFinding {
+	b, err := os.ReadFile(filepath.Join(VerifRoot, "known_findings.json"))
+	if err != nil {
+		return nil
+	}
+	var f struct {
+		Findings []knownFinding `json:"findings"`
+	}
+	json.Unmarshal(b, &f)
+	return f.Findings
+}
+
+// applyKnown moves confirmed violations that are exactly a listed open finding (same dedicated
+// corpus job, same assertion) to the known-findings list; everything else stays a violation.
+func (c *Ctx) applyKnown() {
+	known := loadKnown()
+	var rest []Finding
+	seen := map[string]bool{}
+	for _, v := range c.Violations {
+		matched := false
+		for _, k := range known {
+			if k.Property == c.ID && k.Status == "open" && strings.HasPrefix(v.Job, k.JobPrefix) && contains(k.Asserts, v.What) {
+				matched = true
+				if !seen[k.ID] {
+					seen[k.ID] = true
+					c.KnownHits = append(c.KnownHits, fmt.Sprintf("[%s] %s (reproduced: %s, replay %s)", k.ID, k.What, v.Job, v.Replay))
+				}
+			}
+		}
+		if !matched {
+			rest = append(rest, v)
+		}
+	}
+	c.Violations = rest
+	for _, k := range known {
+		if k.Property == c.ID && k.Status == "open" && !seen[k.ID] {
+			c.Notes = append(c.Notes, fmt.Sprintf("known finding %s did not reproduce in this run (stale entry, or its job was not part of this tier)", k.ID))
+		}
+	}
+}
+
 func (c *Ctx) Finish() int {
+	c.applyKnown()
+	if c.Obligations == 0 && len(c.Inconclusive) == 0 {
+		c.Inconclusive = append(c.Inconclusive, "no obligation was produced (no job ran)")
+	}
 	// abstract-table counterexamples: believed only with a concrete witness of the same assertion
 	for _, a := range c.AbstractFindings {
 		found := false
